@@ -45,10 +45,8 @@ def solve_obligation(ob, timeout_ms, seed=0, use_cvc5=True):
     for p in ob.pc:
         s.add(p)
     s.add(z3.Not(ob.goal))
-    try:
-        r = s.check()
-    except z3.Z3Exception as e:
-        r = z3.unknown
+    from .interp import guarded_check
+    r = guarded_check(s, timeout_ms / 1000.0 + 5.0)
     ob.backend = 'z3-%s' % z3.get_version_string()
     if r == z3.unsat:
         ob.verdict = 'proved'
@@ -117,7 +115,29 @@ class Verifier:
         return [c for c in self.reg.contracts.values() if not c.abstract] + self.lemma_contracts()
 
     # ------------------------------------------------------------------
-    def verify(self, contract, timeout_ms=10000, max_paths=4000, termination=False, seed=0):
+    def verify(self, contract, timeout_ms=10000, max_paths=4000, termination=False, seed=0, wall_limit=1200):
+        """hard wall-clock limit per function (path enumeration + solving)"""
+        import signal
+
+        def _alarm(signum, frame):
+            raise TimeoutError()
+        try:
+            old = signal.signal(signal.SIGALRM, _alarm)
+        except ValueError:
+            return self.verify_(contract, timeout_ms, max_paths, termination, seed)
+        signal.alarm(wall_limit)
+        try:
+            return self.verify_(contract, timeout_ms, max_paths, termination, seed)
+        except TimeoutError:
+            res = FunctionResult(contract)
+            res.error = 'wall-clock limit of %ds exceeded while generating/solving obligations' % wall_limit
+            res.error_kind = 'budget'
+            return res
+        finally:
+            signal.alarm(0)
+            signal.signal(signal.SIGALRM, old)
+
+    def verify_(self, contract, timeout_ms=10000, max_paths=4000, termination=False, seed=0):
         res = FunctionResult(contract)
         t0 = time.time()
         try:
